@@ -2,6 +2,8 @@ import AkVerif.Lemmas.GhistReport
 import AkVerif.Lemmas.GhistTotal
 import AkVerif.Lemmas.GhistWindow
 import AkVerif.Lemmas.GhistTags
+import AkVerif.Lemmas.GhistShown
+import AkVerif.Lemmas.GhistAnalyse
 /-!
 # C06 — the history report attributes every matching commit to the right build per branch
 
@@ -69,7 +71,7 @@ theorem order_prefix (pre s : List Item) (x : Item) : ltKey pre (pre ++ x :: s) 
 
 /-- a name is split into sort items at exactly the separator characters the translator read from
 `BranchName._mk_sort_items` (and the blank they are replaced by): … these and no others are separators, … -/
-theorem order_separators (c : Char) : isSep c = true ↔ c ∈ Gen.Ghist.seps ∨ c = ' ' := by
+example (c : Char) : isSep c = true ↔ c ∈ Gen.Ghist.seps ∨ c = ' ' := by
   simp [isSep]
 
 /-- … a word (a non-empty run of non-separators) followed by a separator is one item, whatever follows, … -/
@@ -393,6 +395,72 @@ theorem at_most_once :
             have : r1 = r2 := hf.rcInj r1 r2 rc1 rc2 hg1 hg2 (by rw [hc1', hc2'])
             subst this
             exact hfb.disj a1 a2 hmem1 hmem2 hna hnb hne r1 hr1 hr2
+
+/-- **C06.build_title** — what the report shows as the title of a build of the branch: a build at a commit without
+build tags is the head of the branch and shows as "not built"; a build at a tagged commit shows one of the build
+numbers of its tags, the smallest one -/
+theorem build_title :
+    ∀ bd ∈ B.builds, bd.notMerged = false → ∃ e cm, bd.commit = some e ∧ h.commits[e]? = some cm ∧
+      ((cm.tags = [] ∧ e = b.head ∧ bd.bn = fakeNB) ∨
+       (cm.tags ≠ [] ∧ bd.bn ∈ cm.tags ∧ ∀ t ∈ cm.tags, BN.lt t bd.bn = false)) := by
+  have hg := rgraph_nw hT hW hg
+  obtain ⟨hb, rb, hrb, rfl⟩ := hB
+  have hs := ((rgraph_sem hT hg).2 j b rb hb hrb).1
+  intro bd hbd hnm
+  obtain ⟨bd0, hbd0, rfl⟩ := (mem_repBranch_builds g.rcs rb bd).mp hbd
+  have hsome : bd0.rcommit.isSome = true := by
+    simp only [repBuild] at hnm; cases hx : bd0.rcommit <;> simp_all
+  obtain ⟨hrc0, rc, hrc, hspec, _⟩ := hs.buildSpec bd0 hbd0 hsome
+  have hbg : bd0 ∈ g.builds :=
+    (rgraph_bumpsOk hT (RelInv.trivial _ _) hg).2 rb (List.mem_of_getElem? hrb) bd0 hbd0 hsome
+  obtain ⟨rc', cm, h1, h2, isHead, h3⟩ := rgraph_bnShown hT hg bd0 hbg
+  rw [hrc] at h1; cases h1
+  refine ⟨rc.commit, cm, by simp [repBuild, hrc0, hrc], h2, ?_⟩
+  show _ ∨ (_ ∧ bd0.bn ∈ cm.tags ∧ ∀ t ∈ cm.tags, BN.lt t bd0.bn = false)
+  by_cases ht : cm.tags = []
+  · left
+    have hsort : sortBy BN.lt cm.tags = [] := by rw [ht]; rfl
+    simp only [buildNums, hsort, List.isEmpty_nil, Bool.and_true] at h3
+    refine ⟨ht, ?_, ?_⟩
+    · rcases hspec.1 with h4 | h4
+      · rw [Hist.tagged_of_get h2, ht] at h4; cases h4
+      · exact h4
+    · cases isHead <;> simp at h3
+      exact h3.symm
+  · right
+    have hne : (sortBy BN.lt cm.tags).isEmpty = false := by
+      cases hsl : sortBy BN.lt cm.tags with
+      | nil =>
+        have := (sortBy_perm BN.lt cm.tags).length_eq
+        rw [hsl] at this
+        exact absurd (List.length_eq_zero_iff.mp this.symm) ht
+      | cons _ _ => rfl
+    simp only [buildNums, hne, Bool.and_false, Bool.false_eq_true, if_false] at h3
+    exact ⟨ht, head_sorted_min h3⟩
+
+/-- **C06.pseudo_title** — an entry of the branch is titled "not merged" exactly when it is the pseudo build: it has no
+commit of its own and carries the "not merged" number; every other entry has a build commit -/
+theorem pseudo_title :
+    ∀ bd ∈ B.builds, (bd.notMerged = true → bd.commit = none ∧ bd.bn = fakeNM) ∧
+      (bd.notMerged = false → ∃ e, bd.commit = some e) := by
+  have hk := rgraph_kinds hT hg
+  have hgn := rgraph_nw hT hW hg
+  obtain ⟨hb, rb, hrb, rfl⟩ := hB
+  have hs := ((rgraph_sem hT hgn).2 j b rb hb hrb).1
+  intro bd hbd
+  obtain ⟨bd0, hbd0, rfl⟩ := (mem_repBranch_builds g.rcs rb bd).mp hbd
+  constructor
+  · intro hnm
+    have hnone : bd0.rcommit = none := by
+      simp only [repBuild] at hnm; cases hx : bd0.rcommit <;> simp_all
+    rcases hk rb (List.mem_of_getElem? hrb) bd0 hbd0 with ⟨h1, _⟩ | ⟨_, h2⟩
+    · rw [hnone] at h1; cases h1
+    · exact ⟨by simp [repBuild, hnone], h2⟩
+  · intro hnm
+    have hsome : bd0.rcommit.isSome = true := by
+      simp only [repBuild] at hnm; cases hx : bd0.rcommit <;> simp_all
+    obtain ⟨hrc0, rc, hrc, _, _⟩ := hs.buildSpec bd0 hbd0 hsome
+    exact ⟨rc.commit, by simp [repBuild, hrc0, hrc]⟩
 
 end
 
